@@ -32,6 +32,9 @@ rule("C01.n", "the list of nodes that get no balance row (skip_nodes) is what th
               "read it (a default list that grows keeps skipping a node in every later set-up - its balance row is missing while its "
               "assets are dispatched)", floor=2)
 rule("C10.f", "a mutable default argument (list / dict / object created in the signature) is never mutated", floor=10)
+rule("C01.o", "the assets a portfolio balances are the assets it registered: the node registry (nodes, asset names) is built from the asset list at "
+              "construction, so that list is the portfolio's own - a method never grows a list it shares with the caller (a second portfolio built "
+              "from the same list would set up the added assets without a balance row at their nodes)", floor=0)
 rule("C11.j", "a set-up does not write into the constructor-kept attributes of objects it holds (C10.a seen from C11): what to_json writes after a "
               "set-up must be what the constructor was given - a life time written onto an inner asset by a wrapper is saved with it, and the "
               "loaded object is built from it", floor=0)
@@ -412,7 +415,7 @@ def _mutable_default(d) -> bool:
     return False
 
 
-@analysis("effects", ["C10.a", "C10.e", "C10.f", "C15.c", "C03.f", "C06.g", "C10.h", "C01.k", "C10.i", "C01.n", "C11.j"])
+@analysis("effects", ["C10.a", "C10.e", "C10.f", "C15.c", "C03.f", "C06.g", "C10.h", "C01.k", "C10.i", "C01.n", "C11.j", "C01.o"])
 def run(ctx):
     p = ctx.p
     an = ctx.memo("effects", lambda: EffectAnalysis(ctx))
@@ -425,6 +428,35 @@ def run(ctx):
                 from .serialization import self_attr_writes
                 s |= {a for a, _, _ in self_attr_writes(init)}
         ctor_attrs[ci.name] = s
+    # attributes that hold an object the *caller* gave (by reference): `self.x = x`, `self.x = x if ... else [x]` ... - not the containers the
+    # constructor builds itself ([], {}, list(x), x.copy(), a comprehension): those are the object's own state
+    def _aliases_param(init, e, st, depth=0):
+        if depth > 4:
+            return False
+        pn = {q.name for q in init.params if q.name not in ("self", "cls")}
+        if isinstance(e, ast.Name):
+            if e.id in pn and not [d for d in ctx.flow(init).defs(e.id, st) if d.kind != "param"]:
+                return True
+            ds = [d for d in ctx.flow(init).defs(e.id, st) if d.kind == "assign" and d.value is not None]
+            return any(_aliases_param(init, d.value, d.node, depth + 1) for d in ds)
+        if isinstance(e, ast.IfExp):
+            return _aliases_param(init, e.body, st, depth + 1) or _aliases_param(init, e.orelse, st, depth + 1)
+        if isinstance(e, ast.BoolOp):
+            return any(_aliases_param(init, v, st, depth + 1) for v in e.values)
+        if isinstance(e, ast.Attribute):
+            return _aliases_param(init, e.value, st, depth + 1)
+        return False
+    alias_attrs = {}
+    for ci in p.classes.values():
+        s = set()
+        for c in p.mro(ci):
+            init = c.methods.get("__init__")
+            if init:
+                from .serialization import self_attr_writes
+                for a, st, v in self_attr_writes(init):
+                    if v is None or _aliases_param(init, v, st):
+                        s.add(a)
+        alias_attrs[ci.name] = s
 
     n_public = 0
     for fn in sorted(p.all_functions(), key=lambda f: f.qualname):
@@ -491,7 +523,7 @@ def run(ctx):
                                  "self-normalising stores only: " + "; ".join(au.short(m.node, 70) for m in own[:3]))
         # ------------------------------------------------------------ C10.a constructor-kept attributes / other assets
         if fn.cls is not None and (p.is_subclass(fn.cls, "Asset") or fn.cls.name == "Portfolio"):
-            kept = ctor_attrs.get(fn.cls.name, set())
+            kept = alias_attrs.get(fn.cls.name, set())
             for root, ms in sorted(by_root.items()):
                 if not root.startswith("self."):
                     continue
@@ -556,6 +588,8 @@ def run(ctx):
                         return au.U(t)
                     how = sorted({alpha(m.node) for m in leaks if m.via is None and isinstance(m.node, (ast.Assign, ast.AugAssign))})
                     rids = rids + ["C11.j"]
+                    if fn.cls.name == "Portfolio" and attr == "assets":
+                        rids = rids + ["C01.o"]
                     for rid in rids:
                         ctx.ob(rid, fn, "self.%s" % attr, False,
                                "an object kept from the constructor (user data, or another asset) is rewritten with call-dependent "
